@@ -323,7 +323,10 @@ func loadBuiltinFromJSON() error {
 
 		d := NewDefineBuiltinMethod(classDef.Frame, classDef.Class)
 
-		base.BuiltinClasses = append(base.BuiltinClasses, classDef.Class)
+		// only classes of the Builtin frame are visible by their short name
+		if classDef.Frame == "Builtin" {
+			base.BuiltinClasses = append(base.BuiltinClasses, classDef.Class)
+		}
 
 		for _, method := range classDef.InstanceMethods {
 			args := parseArguments(method.Arguments)
